@@ -18,7 +18,7 @@ ASSUMPTIONS = [
     "tolerance 1e-9*(|amplitude|+|offset|) on the complex coefficient A_n e^{j phi_n} (invariant under (-A, phi+pi) and whole turns)",
 ]
 WAVES = ['const', 'cos', 'sin', 'rect', 'tri', 'saw']
-N_WAVE = {'quick': 1600, 'thorough': 48000}
+N_WAVE = {'quick': 4800, 'thorough': 48000}
 SPECIAL_PH = [0.0, math.pi / 2, -math.pi / 2, math.pi, -math.pi, 2 * math.pi, 3 * math.pi / 2, -4 * math.pi, math.pi / 4, 1e-9, -1e-9]
 
 
